@@ -18,6 +18,10 @@ class InjectedFault(Exception):
     pass
 
 
+class InjectedInterrupt(BaseException):
+    """An abort that is not an Exception (as Ctrl-C / SystemExit / a cancelled task are)."""
+
+
 def structure(p):
     """Identity snapshot of every dependency list (objects, order, kinds)."""
     s = {"tasks": [id(t) for t in p.workflow.task_list]}
@@ -235,6 +239,8 @@ def run_case(case):
         def inject(project, phase, k=k, ph=ph, state=state):
             if not state["hit"] and project.time == k and phase == ph:
                 state["hit"] = True
+                if (k + len(ph)) % 3 == 0:
+                    raise InjectedInterrupt("%s@%d" % (ph, k))
                 raise InjectedFault("%s@%d" % (ph, k))
         tr.inject = inject
         got = None
@@ -243,6 +249,9 @@ def run_case(case):
                 backward(p, spec, due, reverse)
         except InjectedFault:
             got = "injected"
+        except InjectedInterrupt:
+            got = "injected"
+            res.count("C17.faults_that_are_not_Exceptions")
         except Exception as e:
             got = exc_info(e)
         res.count("C17.injected_runs")
